@@ -381,14 +381,22 @@ func genCase(t *rapid.T) Case {
 		grid = append(grid, rapid.Int64Range(0, budget).Draw(t, "gridTick"))
 	}
 	sort.Slice(grid, func(i, j int) bool { return grid[i] < grid[j] })
+	// one file in fifteen has a crowded tick: 100..300 events of every track on the same tick
+	crowded := -1
+	if rapid.IntRange(0, 14).Draw(t, "crowdedTick?") == 0 {
+		crowded = rapid.IntRange(0, nticks-1).Draw(t, "crowdedGridIndex")
+	}
 	for ti := 0; ti < ntr; ti++ {
 		var evs []Ev
 		var abs int64
-		for _, g := range grid {
+		for gi, g := range grid {
 			if g < abs { // an off-grid note moved this track past the grid tick
 				g = abs
 			}
 			k := rapid.SampledFrom([]int{0, 1, 2, 3, 5, 8, 14}).Draw(t, "eventsOnTick")
+			if gi == crowded {
+				k = rapid.IntRange(100, 300).Draw(t, "eventsOnCrowdedTick")
+			}
 			for j := 0; j < k; j++ {
 				kind := rapid.SampledFrom([]string{"note", "note", "note", "note", "meta", "sysex", "tempo"}).Draw(t, "kind")
 				e := Ev{Delta: uint32(g - abs), Kind: kind}
@@ -433,7 +441,7 @@ func genCase(t *rapid.T) Case {
 }
 
 var play = ev.NewCheck("C12", "playback",
-	"rapid: format-1 files with 1..5 tracks; 1..6 grid ticks recur in every track with 0..14 events each (so ticks are shared within and across tracks and the concatenation of the tracks is not ordered by time), off-grid notes, metas, sysex and tempo changes sprinkled in; resolution 960 with tempi making one tick 1..50 us (in one case of five no tempo event at tick 0, i.e. 120 BPM until the first later tempo event), whole file <= ~25 ms; channel messages of all seven kinds (note-on also with velocity 0), each unique by its bytes; Play(out) or MultiPlay with explicit, default (-1) and missing port mappings; optional track selection; read with ReadTracksFrom or (one case of four) from a temporary file with ReadTracks; in one case of five the same TracksReader is played a second time and both runs are checked; oracle on recording fake out ports (instant = time.Since(start) inside Send): every channel message of a selected, mapped track exactly once on its port, no meta event ever, per-track send order == file order, global order non-decreasing in scheduled time (exact tempo-map integral), no send before its scheduled time; sysex filtered from the comparison; non-trivial = >= 2 selected tracks, > 12 messages and a tick shared by >= 2 events of one track and by another track; distinct by case hash",
+	"rapid: format-1 files with 1..5 tracks; 1..6 grid ticks recur in every track with 0..14 events each (one file in fifteen has a crowded tick with 100..300 events of every track) (so ticks are shared within and across tracks and the concatenation of the tracks is not ordered by time), off-grid notes, metas, sysex and tempo changes sprinkled in; resolution 960 with tempi making one tick 1..50 us (in one case of five no tempo event at tick 0, i.e. 120 BPM until the first later tempo event), whole file <= ~25 ms; channel messages of all seven kinds (note-on also with velocity 0), each unique by its bytes; Play(out) or MultiPlay with explicit, default (-1) and missing port mappings; optional track selection; read with ReadTracksFrom or (one case of four) from a temporary file with ReadTracks; in one case of five the same TracksReader is played a second time and both runs are checked; oracle on recording fake out ports (instant = time.Since(start) inside Send): every channel message of a selected, mapped track exactly once on its port, no meta event ever, per-track send order == file order, global order non-decreasing in scheduled time (exact tempo-map integral), no send before its scheduled time; sysex filtered from the comparison; non-trivial = >= 2 selected tracks, > 12 messages and a tick shared by >= 2 events of one track and by another track; distinct by case hash",
 	genCase, run)
 
 func TestPropPlayback(t *testing.T) { play.Rapid(t, 150, 2000) }
